@@ -124,6 +124,7 @@ type Trace struct {
 	Inconclusive       string
 	Cycles             int64
 	CancelSeq          int64
+	CancelEffSeq       int64 // context cancel: sequence number right after the cancel call returned (0 for Shutdown: see the serve.done event)
 	CyclesAtCancel     int64
 	PtyStream          []byte
 	DebugAtWait        string    // what the debug output held at the moment Wait returned
@@ -176,6 +177,7 @@ type Options struct {
 var runMu sync.Mutex
 
 type runner struct {
+	cancelEff        atomic.Int64               // see Trace.CancelEffSeq
 	wcStyles         sync.Map                   // (W, C) -> []decor.WC shared by all via_any decorators with these settings
 	midRender        atomic.Pointer[func(bool)] // armed by a tick step that carries a priority change
 	sc               *Scenario
@@ -395,6 +397,7 @@ func (r *runner) hook(point string, n int, obj interface{}) {
 			go r.p.Shutdown()
 		} else {
 			r.cancel()
+			r.cancelEff.CompareAndSwap(0, r.seq.Add(1))
 		}
 	}
 	r.perturb(point, occ)
@@ -872,6 +875,7 @@ func Run(sc *Scenario, opt Options) *Trace {
 		r.rec.mu.Unlock()
 	}
 	r.tr.Debug = r.debug.String()
+	r.tr.CancelEffSeq = r.cancelEff.Load()
 	r.tr.Cycles = r.cycle.Load()
 	// hand out a copy: goroutines of a hung or abandoned run may still be inside
 	// the hook and go on recording into r.tr
@@ -1625,6 +1629,10 @@ func (r *runner) runStepC(st *Step, idx, depth, client int) {
 		r.mu.Unlock()
 		r.cancelled.Store(true)
 		r.cancel()
+		// (the sequence number at which the cancellation has certainly taken effect:
+		// the event above was numbered before this goroutine queued for the trace
+		// lock, which under a busy render loop can take milliseconds)
+		r.cancelEff.CompareAndSwap(0, r.seq.Add(1))
 		r.noteRunningAfterCancel()
 	case "shutdown":
 		s := r.event("client.cancel", 1, nil)
